@@ -35,8 +35,24 @@ def oracle_c04(case, cap=50):
     out = []
     past, future = [], []
     prev = real["init"]
+    done, undone = [], None      # (index, response, state after) of accepted choices; the one just undone
     for i, (op, step) in enumerate(zip(case["ops"], real["steps"])):
         st, resp, name = step["state"], step["resp"], op["op"]
+        # taking the same choice again after undoing it gives exactly what it gave the first time
+        if name == "choose" and undone is not None and op["i"] == undone[0]:
+            if norm(resp) != norm(undone[1]) or norm(strip_hist(st)) != norm(strip_hist(undone[2])):
+                out.append(fail(i, "after undo the same choice was taken again and did not give what it gave the first time "
+                                   f"(first: {json.dumps(undone[1])[:160]}; now: {json.dumps(resp)[:160]})"))
+        if name == "choose" and prev.get("out") and 0 <= op["i"] < len(prev["out"]["choices"]):
+            done.append((op["i"], resp, st))
+            done = done[-cap:]
+            undone = None
+        elif name == "undo" and resp.get("ret") is True and done:
+            undone = done.pop()
+        elif name not in READ_OPS:
+            undone = None
+            if name in ("load", "fresh_load", "load_doc", "goto", "reset_one_time", "redo"):
+                done = []
         if name == "choose":
             n = len(prev["out"]["choices"]) if prev.get("out") else 0
             if not (0 <= op["i"] < n):
@@ -423,6 +439,19 @@ def _hook_passages_register(story, names):
                for n in names)
 
 
+def _touches_hooks_or_jumps(p):
+    def walk(toks):
+        for t in toks or []:
+            if not isinstance(t, dict):
+                continue
+            if t.get("type") in ("hook", "jump"):
+                return True
+            if walk(t.get("content")) or any(walk(b.get("content")) for b in t.get("branches", []) if isinstance(b, dict)):
+                return True
+        return False
+    return walk(p.get("execute")) or walk(p.get("content"))
+
+
 def oracle_c09(case):
     real = case["real"]
     if real.get("status") != "ok":
@@ -431,8 +460,18 @@ def oracle_c09(case):
     out = []
     prev = real["init"]
     hpast, hfuture = [], []     # hook registrations at each restore point
+    saved = []                  # (hook registrations, position) at each save
     for i, (op, step) in enumerate(zip(case["ops"], real["steps"])):
         st, resp, name = step["state"], step["resp"], op["op"]
+        if name == "save" and not is_raise(resp):
+            saved.append((copy.deepcopy(st["hooks"]), st.get("cur")))
+        if name in ("load", "fresh_load") and not is_raise(resp) and 0 <= op.get("slot", -1) < len(saved):
+            want, pos = saved[op["slot"]]
+            # (loading re-enters the saved passage — finding C05-F1 — so a passage that itself hooks / unhooks or jumps on is left out)
+            if pos in story["passages"] and not _touches_hooks_or_jumps(story["passages"][pos]):
+                got = {k: v for k, v in st["hooks"].items() if v}
+                if got != {k: v for k, v in want.items() if v}:
+                    out.append(fail(i, f"after loading a save the hook registrations are {st['hooks']}, the saved game had {want}"))
         if name == "choose" and prev.get("out") and 0 <= op["i"] < len(prev["out"]["choices"]):
             hpast.append(copy.deepcopy(prev["hooks"]))
             hpast = hpast[-50:]
@@ -689,6 +728,12 @@ def oracle_c08(case):
                         pos = content.find(f"={pid}=")
                         if pos > last_pos:
                             out.append(fail(i, f"text of {pid} appears after the final passage {final}"))
+            # only the first top-level jump of a passage takes effect: its target is the next passage entered
+            for pid in entered:
+                jumps = [t for t in story["passages"][pid].get("content", []) if isinstance(t, dict) and t.get("type") == "jump"]
+                if jumps and jumps[0]["target"] in story["passages"] and jumps[0]["target"] not in entered:
+                    out.append(fail(i, f"{pid} was entered but the target of its first jump, {jumps[0]['target']}, was not "
+                                       f"(entered: {entered}, final: {final})"))
             # the final passage's choices are the ones offered
             if st["out"]["pid"] != final:
                 out.append(fail(i, "cached output names another passage"))
